@@ -560,7 +560,7 @@ fn dispatch(h: &mut Hist, sock: Option<&tokio::net::UdpSocket>, idx: usize, clas
 
 pub fn run(cfg: &RunCfg) -> Report {
     let miri = cfg.lane.as_deref() == Some("miri");
-    let cases = cfg.cases(20_000, 1_000_000);
+    let cases = cfg.cases(60_000, 1_500_000);
     let rep = run_cases(cfg, 0, cases, Duration::from_secs(3600), |_case, rng, rep| {
         run_history(rng, rep, miri);
     });
